@@ -192,6 +192,15 @@ def knownMutators : List Footprint := [
   ⟨"ensureglyphnames", ["result of MakeGlyphNames"], ["cff.Glyph.Name of every glyph", "glyf.Outlines.Names"]⟩
 ]
 
+/-- `header.Write` itself, on a caller-supplied table map (stream `conc.hdrwrite`): the only
+in-place write it documents is the checksum field `head[8:12]` (masked by the harness); the table
+bodies, INCLUDING the spare capacity behind them (which may be another table's live data when the
+tables are sub-slices of one image), are only read.  Slices are lists in the Lean models of
+header.Write (C03): aliasing and capacity are not modelled there; they are covered by this
+footprint entry and its D predicate "capacity snapshot unchanged". -/
+def headerWriteFootprint : Footprint :=
+  ⟨"hdrwrite", ["tableNames", "records", "header buffer", "pad [3]byte (written separately, never appended to a body)"], []⟩
+
 def findOp (n : String) : Option Footprint := listedOps.find? (·.name == n)
 
 def findAny (n : String) : Option Footprint := (listedOps ++ knownMutators).find? (·.name == n)
